@@ -57,6 +57,12 @@ pub enum Op {
     Parse(usize),
     ParseFragment(usize),
     SetConsolidation(bool),
+    /// `append_namespace(parent, &CreateNamespace)` — the wrapper over new_namespace_node + append_namespace_node
+    AppendNamespace(N, String, String),
+    /// `element_mut(n).set_name(..)` — the value-level twin of set_element_name (None on a non-element)
+    ElementMutSetName(N, QName),
+    /// `processing_instruction_mut(n).set_target(..)`
+    PiSetTarget(N, String),
 }
 
 impl Op {
@@ -90,6 +96,9 @@ impl Op {
             NsRemove(a, p) => format!("namespaces_mut(n{}).remove({:?})", a, p),
             NsClear(a) => format!("namespaces_mut(n{}).clear()", a),
             SetNamespace(a, p, u) => format!("set_namespace(n{},{:?},{:?})", a, p, u),
+            AppendNamespace(a, p, u) => format!("append_namespace(n{},{:?},{:?})", a, p, u),
+            ElementMutSetName(a, q) => format!("element_mut(n{}).set_name({})", a, q.show()),
+            PiSetTarget(a, t) => format!("pi_mut(n{}).set_target({:?})", a, t),
             RemoveNamespace(a, p) => format!("remove_namespace(n{},{:?})", a, p),
             SetElementName(a, q) => format!("set_element_name(n{},{})", a, q.show()),
             TextSet(a, s) => format!("text_mut(n{}).set({:?})", a, s),
@@ -141,6 +150,9 @@ impl Op {
             NsRemove(..) => "ns_remove",
             NsClear(..) => "ns_clear",
             SetNamespace(..) => "set_namespace",
+            AppendNamespace(..) => "append_namespace",
+            ElementMutSetName(..) => "element_mut_set_name",
+            PiSetTarget(..) => "pi_set_target",
             RemoveNamespace(..) => "remove_namespace",
             SetElementName(..) => "set_element_name",
             TextSet(..) => "text_set",
@@ -362,21 +374,40 @@ pub fn gen_op(src: &mut Src, mix: &OpMix, small: bool, pick: &mut dyn FnMut(&mut
             7 => Op::NsInsert(n(src), g_prefix(src, small), g_uri(src, small)),
             8 => Op::NsRemove(n(src), g_prefix(src, small)),
             9 => Op::NsClear(n(src)),
-            10 => Op::SetNamespace(n(src), g_prefix(src, small), g_uri(src, small)),
+            10 => {
+                let (a, p, u) = (n(src), g_prefix(src, small), g_uri(src, small));
+                if src.ratio(1, 4) {
+                    Op::AppendNamespace(a, p, u)
+                } else {
+                    Op::SetNamespace(a, p, u)
+                }
+            }
             _ => Op::RemoveNamespace(n(src), g_prefix(src, small)),
         },
         2 => match src.choice(7) {
-            0 => Op::SetElementName(n(src), g_qname(src, small, false)),
+            0 => {
+                let (a, q) = (n(src), g_qname(src, small, false));
+                if src.ratio(1, 4) {
+                    Op::ElementMutSetName(a, q)
+                } else {
+                    Op::SetElementName(a, q)
+                }
+            }
             1 => Op::TextSet(n(src), g_text(src, small)),
             2 => Op::CommentSet(n(src), if src.ratio(1, 4) { "a--b".into() } else { g_text(src, small) }),
-            3 => Op::PiSetData(
-                n(src),
-                match src.choice(3) {
+            3 => {
+                let a = n(src);
+                let d = match src.choice(3) {
                     0 => None,
                     1 => Some(String::new()),
                     _ => Some(g_text(src, small)),
-                },
-            ),
+                };
+                if src.ratio(1, 4) {
+                    Op::PiSetTarget(a, ["pi", "t2", "xml-x"][src.choice(3)].to_string())
+                } else {
+                    Op::PiSetData(a, d)
+                }
+            }
             4 => Op::AttrNodeSet(n(src), g_text(src, small)),
             5 => Op::NsNodeSet(n(src), g_uri(src, small)),
             _ => Op::TextContentSet(n(src), g_text(src, small)),
@@ -538,6 +569,33 @@ pub fn exec(xot: &mut Xot, op: &Op, h: &dyn Fn(N) -> Node) -> Outcome {
             let id = name_id(xot, q);
             xot.set_element_name(h(*a), id);
             Outcome::Ok
+        }
+        AppendNamespace(a, p, u) => {
+            let ns = xot::xmlname::CreateNamespace::new(xot, p, u);
+            match xot.append_namespace(h(*a), &ns) {
+                Ok(n) => Outcome::Node(n),
+                Err(e) => Outcome::Err(e.to_string()),
+            }
+        }
+        ElementMutSetName(a, q) => {
+            let id = name_id(xot, q);
+            match xot.element_mut(h(*a)) {
+                Some(e) => {
+                    e.set_name(id);
+                    Outcome::Val(Some(String::new()))
+                }
+                None => Outcome::Val(None),
+            }
+        }
+        PiSetTarget(a, t) => {
+            let id = xot.add_name(t);
+            match xot.processing_instruction_mut(h(*a)) {
+                Some(p) => match p.set_target::<String>(id) {
+                    Ok(()) => Outcome::Val(Some(String::new())),
+                    Err(e) => Outcome::Err(e.to_string()),
+                },
+                None => Outcome::Val(None),
+            }
         }
         TextSet(a, s) => match xot.text_mut(h(*a)) {
             Some(t) => {
